@@ -21,6 +21,7 @@ inductive Tm
 
 structure Fn where
   key : String
+  scope : String
   owner : String
   trait_ : String
   name : String
